@@ -236,6 +236,7 @@ def run(run: core.Run) -> int:
         raise core.Infra("the files under " + core.REPO + "/explorerscript changed while the check was running: references and sessions saw different trees; run again")
     if not prep["proofs_ok"] or not aud["ok"] or drv is None:
         run.broken_tie("Lean obligations of C12 do not check (build/audit)", {"theorems": THEOREMS, "log": prep["log"][-3000:], "audit": aud})
+    c11.cleanup_projects()
     sample = [{"mode": c["mode"], "threads": [[x["kind"] for x in t] for t in c["threads"]], **{k: c[k] for k in ("seed", "p_switch", "warm", "antlr", "switchinterval") if k in c}} for c in cases[:2] + cases[n_sched:n_sched + 1]]
     cov = core.proof_coverage(run, prep, aud, MODULES, THEOREMS, {
         "explanation": "Kernel-checked theorem: under every interleaving of the locked sections of graph_utils' cache functions, threads that own their graphs and follow the clear "
